@@ -481,8 +481,8 @@ def c03(tier):
         for lo in range(0, total, per):
             jobs.append((seed(), lo, min(total, lo + per), wroot, ("enum", pname, dims)))
         r.extra.setdefault("enumerated_programs", {})[pname] = {"server_steps": [na - 1, nb - 1], "schedules": total, "complete": th or (na <= 14 and nb <= 14)}
-    npct = 12000 if th else 260
-    nrw = 8000 if th else 140
+    npct = 12000 if th else 700
+    nrw = 8000 if th else 350
     per = max(1, npct // (NCPU * 2))
     for lo in range(0, npct, per):
         jobs.append((seed(), lo, min(npct, lo + per), wroot, "pct"))
@@ -703,12 +703,18 @@ def c10(tier):
 
 
 # ------------------------------------------------------------------ plain (ungated) sessions
-def session(root, data, env, trace=None, alloc_floor=None, pieces=None, rlimit_as_kib=None, timeout=30, close_after=True):
+def session(root, data, env, trace=None, alloc_floor=None, pieces=None, rlimit_as_kib=None, timeout=30, close_after=True, valgrind=False):
     """Feed `data` (bytes, or list of pieces) to one `copia serve root`; returns dict(out, err, code, signal, timed_out)."""
     e = env
     if trace or alloc_floor:
         e = shim_env(env, log=trace, alloc_floor=alloc_floor)
     argv = [COPIA, "serve", root]
+    if valgrind:
+        from common import COPIA_VG
+        argv = [COPIA_VG, "serve", root]
+        argv = ["valgrind", "-q", "--error-exitcode=97", "--errors-for-leak-kinds=none", "--leak-check=no"] + argv
+        rlimit_as_kib = None
+        timeout = max(timeout, 120)
     if rlimit_as_kib:
         argv = ["bash", "-c", "ulimit -c 0; ulimit -v %d; exec \"$0\" \"$@\"" % rlimit_as_kib] + argv
     p = subprocess.Popen(argv, env=e, stdin=subprocess.PIPE, stdout=subprocess.PIPE, stderr=subprocess.PIPE, start_new_session=True)
@@ -989,12 +995,12 @@ def c11(tier):
     wroot = workdir("c11")
     jobs = []
     nex = 2 * 2 * 3 * 343  # complete index space (some strings repeat for n < 3)
-    nex_run = nex if th else 420
+    nex_run = nex if th else 1000
     per = max(1, nex_run // (NCPU * 2))
     stride = 1 if th else nex // nex_run
     for lo in range(0, nex_run, per):
         jobs.append((seed(), lo, min(nex_run, lo + per), wroot, 1 if th else 9973))
-    nrand = 6000 if th else 200
+    nrand = 6000 if th else 500
     per = max(1, nrand // (NCPU * 2))
     for lo in range(0, nrand, per):
         jobs.append((seed(), 100000 + lo, 100000 + min(nrand, lo + per), wroot, 0))
@@ -1188,7 +1194,14 @@ def _c12_worker(args):
                 "put-bad-path-content-looks-like-frames": cbor.req_put("/z", None, len(cbor.req_delete("keep", None)), b3.data(cbor.req_delete("keep", None))) + cbor.req_delete("keep", None),
                 "delete-bad-path": cbor.req_delete("../keep", None),
                 "get-directory": cbor.req_get("."),
+                # requests the hub cannot carry out for file-system reasons: it may end the session, but if it
+                # answers with an Error the content bytes must have been consumed
+                "put-parent-is-a-file": cbor.req_put("keep/x", None, len(bad_body), b3.data(bad_body)) + bad_body,
+                "put-parent-is-a-file-content-looks-like-frames": cbor.req_put("keep/x", None, len(cbor.req_delete("keep", None) + cbor.req_put("smuggled", None, 1, b3.data(b"s")) + b"s"), b3.data(cbor.req_delete("keep", None) + cbor.req_put("smuggled", None, 1, b3.data(b"s")) + b"s")) + cbor.req_delete("keep", None) + cbor.req_put("smuggled", None, 1, b3.data(b"s")) + b"s",
+                "put-name-too-long": cbor.req_put("n" * 300, None, len(bad_body), b3.data(bad_body)) + bad_body,
+                "put-onto-a-directory": cbor.req_put("adir", None, len(bad_body), b3.data(bad_body)) + bad_body,
             }
+            os.makedirs(os.path.join(root, "adir", "inner"), exist_ok=True)
             ek = sorted(errs)[idx % len(errs)]
             tail = c11_tail(b3)
             rc = root + ".ctl"
@@ -1199,14 +1212,28 @@ def _c12_worker(args):
             label = {"mode": "resync", "error_request": ek, "index": idx}
             reps, ps = parse_replies(r["out"])
             creps, _ = parse_replies(ctl["out"])
-            if len(reps) < 2 or reps[1].get("kind") != "Error":
-                viol("C12|resync|request-did-not-draw-an-error|" + ek, dict(label, reply=str(reps[1:2])[:200]))
-            got = [strip(x) for x in reps[2:]]
-            want = [strip(x) for x in creps[1:]]
-            if got != want or ps.broken:
-                viol("C12|resync|stream-out-of-step-after-error|" + ek, dict(label, got=str(got)[:300], want=str(want)[:300], broken=ps.broken))
-            if walk_root(os.path.realpath(root)) != walk_root(os.path.realpath(rc)):
-                viol("C12|resync|tree-differs-from-control|" + ek, dict(label))
+            may_end_session = ek.startswith("put-parent") or ek in ("put-name-too-long", "put-onto-a-directory")
+            session_ended = len(reps) < 2 and not ps.broken
+            if session_ended and may_end_session:
+                cnt("resync_sessions_ended_by_the_hub[%s]" % ek)
+                if r["signal"] is not None or "panicked" in r["err"]:
+                    viol("C12|resync|session-ended-by-crash|" + ek, dict(label, signal=r["signal"], stderr=r["err"][-200:]))
+                # nothing of the unanswered tail may have been carried out, and the content must not have been executed
+                tree = walk_root(os.path.realpath(root))
+                base = {k: v for k, v in walk_root(os.path.realpath(rc)).items()}
+                if "smuggled" in tree or "keep" not in tree:
+                    viol("C12|resync|content-bytes-executed-as-requests|" + ek, dict(label, tree=sorted(tree)))
+            else:
+                if len(reps) < 2 or reps[1].get("kind") != "Error":
+                    if not (may_end_session and len(reps) >= 2 and reps[1].get("kind") == "PutResult"):
+                        viol("C12|resync|request-did-not-draw-an-error|" + ek, dict(label, reply=str(reps[1:2])[:200]))
+                if len(reps) >= 2 and reps[1].get("kind") == "Error":
+                    got = [strip(x) for x in reps[2:]]
+                    want = [strip(x) for x in creps[1:]]
+                    if got != want or ps.broken:
+                        viol("C12|resync|stream-out-of-step-after-error|" + ek, dict(label, got=str(got)[:300], want=str(want)[:300], broken=ps.broken))
+                    if walk_root(os.path.realpath(root)) != walk_root(os.path.realpath(rc)):
+                        viol("C12|resync|tree-differs-from-control|" + ek, dict(label))
             res["distinct"].add("resync|%s|%s" % (ek, reps[1].get("kind") if len(reps) > 1 else None))
             cnt("resync_sessions[%s]" % ek)
             for sig, det in found:
@@ -1226,7 +1253,10 @@ def _c12_worker(args):
         if npieces > 1 and len(data) > 1:
             cuts = sorted({rng.range(1, len(data) - 1) for _ in range(npieces - 1)})
             pieces = [data[a:b] for a, b in zip([0] + cuts, cuts + [len(data)])]
-        r = session(root, data, base_env(home), trace=trace, alloc_floor=512 * 1024, pieces=pieces, rlimit_as_kib=1024 * 1024, timeout=40)
+        vg = mode == "valgrind"
+        r = session(root, data, base_env(home), trace=None if vg else trace, alloc_floor=None if vg else 512 * 1024, pieces=pieces, rlimit_as_kib=1024 * 1024, timeout=40, valgrind=vg)
+        if vg and r["code"] == 97:
+            viol("C12|serve|valgrind-memcheck-error|" + inp["cls"], {"class": inp["cls"], "index": idx, "stderr": r["err"][-600:]})
         label = {"class": inp["cls"], "index": idx, "mode": mode, "len": len(data), "head": data[:48].hex(), "pieces": npieces}
         v = c12_verdicts(r, trace, root, inp, viol, cnt, label)
         if v == "inconclusive":
@@ -1275,7 +1305,11 @@ def c12(tier):
     th = tier == "thorough"
     wroot = workdir("c12")
     jobs = []
-    for mode, n in (("fuzz", 60000 if th else 1800), ("resync", 2400 if th else 160), ("cutsweep", 5300 if th else 5300)):
+    modes = [("fuzz", 60000 if th else 3200), ("resync", 2400 if th else 160), ("cutsweep", 5300 if th else 5300)]
+    if th and shutil.which("valgrind"):
+        build("cli-vg")
+        modes.append(("valgrind", 300))
+    for mode, n in modes:
         if mode == "cutsweep" and not th:
             n = 330
         per = max(1, n // (NCPU * 2))
@@ -1285,6 +1319,9 @@ def c12(tier):
     rmtree(wroot)
     r.merge_vh(run_vh("c12", tier, cases=300000 if th else 20000), "twin-release:")
     r.merge_vh(run_vh("c12", tier, profile="debug", cases=60000 if th else 4000, sd=seed() + 1000003), "twin-debug:")
+    if th:
+        from libchecks import miri_stage
+        miri_stage(r, "c12", "C12")
     r.assumptions = ["'no valid request' is asserted only for inputs that are so by construction; mutated frames are judged on crash/allocation/spin/content only", "allocation verdicts use exact evidence: a request >= a length prefix the driver put on the wire", "watchdog expiry without zero-length reads in the trace is inconclusive"]
     finish(r, tier)
 
@@ -1769,8 +1806,8 @@ def c13(tier):
     r = Result("C13", "exploration", "sequential part: one evaluation = one `hub-sync LOCAL TARGET` in a sequence by 1-3 clients (hostile names, empty and > 256 KiB files; local-path target and vh:ROOT through the ssh stand-in): after exit 0 every local file is on the hub byte-identical, other hub paths keep bytes and inode, counters equal the model, and the immediate second run sends 0 while the traced server makes no mutating call under ROOT; gated part: one evaluation = two real hub-sync processes whose `serve` children run in gate mode; the scheduler holds one server right after it listed the tree and lets the other client finish (stale listing), with jittered and random variants; then exit status <=> conflicts, every local file of both clients is on the hub at its path or at path.conflict-<12 hex of its BLAKE3>, live content of contested paths is one client's; distinct non-trivial = sequences with both sent and skipped files, gated schedules in which a CAS conflict occurred")
     th = tier == "thorough"
     wroot = workdir("c13")
-    n1 = 1500 if th else 60
-    n2 = 5000 if th else 150
+    n1 = 1500 if th else 150
+    n2 = 5000 if th else 400
     jobs1 = [(seed(), lo, min(n1, lo + max(1, n1 // (NCPU * 2))), wroot) for lo in range(0, n1, max(1, n1 // (NCPU * 2)))]
     jobs2 = [(seed(), lo, min(n2, lo + max(1, n2 // (NCPU * 2))), wroot) for lo in range(0, n2, max(1, n2 // (NCPU * 2)))]
     fold(r, run_jobs(_c13_seq_worker, jobs1))
